@@ -139,6 +139,7 @@ class Sim:
         self.stack.add(i); self.ids.append(i)
         self.emit('N%d%s%s' % (i, k, '!' if self.n[i]['root'] else ''))
         self.grew(None, i)
+        self.limit_stack(i)
         return i
 
     def copy(self, src):
@@ -148,7 +149,14 @@ class Sim:
         self.n[i] = {'k': sn['k'].upper(), 'root': False, 'f': list(sn['f']), 'items': list(sn['items']), 'kv': dict(sn['kv'])}
         self.stack.add(i); self.ids.append(i)
         self.emit('C%d=%d' % (i, src)); self.dirty()
+        self.limit_stack(i)
         return i
+
+    def limit_stack(self, keep):
+        """the harness has 8192 stack slots: never hold more than 4000 pointers there"""
+        if len(self.stack) > 4000:
+            for j in sorted(self.stack)[:500]:
+                if j != keep and j not in self.owned: self.drop(j)
 
     def store(self, i, slot, t):
         old = self.n[i]['f'][slot]
@@ -644,7 +652,9 @@ def join(pre, toks): return ' '.join(toks)
 
 
 def classify(case, impl, why):
-    if longest_chain_hint(case) >= 60000:
+    # signature of the open finding F1 is a predicate on the INPUT: at least 25000 objects in one script (only the
+    # dedicated probe builds that many; the regular generators stay at or below 20001) and the run crashed
+    if longest_chain_hint(case) >= 25000 and 'CRASH' in (impl or ''):
         return F1_SIG
     return None
 
@@ -703,7 +713,14 @@ def run(ctx):
     drv = ctx.build_driver('Mark')
     h = ctx.build_harness('gc_graph.c', whitebox='GC')
     env = dict(os.environ, H_TIMEOUT='10' if quick else '30')
-    run_impl = lambda cs: ctx.run_lines(h, cs, env=env, timeout=3600)[1]
+    def run_impl(cs):
+        out = ctx.run_lines(h, cs, env=env, timeout=3600)[1]
+        for i, l in enumerate(out):
+            if 'TIMEOUT' in l and len(cs) > 1:
+                # a loaded machine must not look like a hanging collector: once more, alone, with a long limit
+                out[i] = ctx.run_lines(h, [cs[i]], env=dict(os.environ, H_TIMEOUT='120'), timeout=3600)[1][0]
+                ctx.cov['timeouts_rerun'] = ctx.cov.get('timeouts_rerun', 0) + 1
+        return out
     run_model = lambda cs: ctx.run_lines(drv, cs, args=['model'], timeout=3600)[1]
     def run_spec(cs):
         out = ctx.run_lines(drv, cs, args=['spec'], timeout=3600)[1]
@@ -736,7 +753,8 @@ def run(ctx):
     if not quick:
         for L in (1000, 5000, MAX_CHAIN_REGULAR):
             for kinds in ('R', 'RS', 'RSALTEU'):
-                cases.append(gen_chain(ctx.rng, L, kinds))
+                # a link through a container costs several C frames: keep those chains well below the stack limit (F1)
+                cases.append(gen_chain(ctx.rng, min(L, 5000) if len(kinds) > 2 else L, kinds))
     # self-test of the generators: a sample of the generated scripts is replayed by the independent validity checker
     small = [c for c in cases if c.count(' ') < 500][:300]
     bad = [c for c in small if not valid_script(c)]
@@ -744,6 +762,21 @@ def run(ctx):
     ctx.cov['generator_selfcheck'] = '%d generated scripts replayed by valid_script: all valid programs' % len(small)
     for i in range(0, len(cases), 500):
         feed(d, cases[i:i + 500])
+    hist, kinds, sizes = {}, {}, {}
+    for c in cases:
+        nn = 0
+        for t in c.split(' '):
+            hist[t[0]] = hist.get(t[0], 0) + 1
+            if t[0] == 'N':
+                nn += 1
+                k = re.search(r'[A-Za-z]!?$', t).group(0)
+                kinds[k] = kinds.get(k, 0) + 1
+        b = 1
+        while b < nn: b *= 4
+        sizes['<=%d' % b] = sizes.get('<=%d' % b, 0) + 1
+    ctx.cov['operation_histogram'] = dict(sorted(hist.items()))
+    ctx.cov['node_kind_histogram'] = dict(sorted(kinds.items()))
+    ctx.cov['nodes_per_case'] = dict(sorted(sizes.items(), key=lambda kv: int(kv[0][2:])))
     # over-retention of the conservative scan (evidence, not a verdict)
     stats(ctx, d, cases)
 
